@@ -60,7 +60,8 @@ func c10Body(kind, level int, name string, hasLower bool, inRow bool) ([]mt.Stmt
 	case bkParentTwice:
 		return []mt.Stmt{par, mt.T("+" + tag + "+"), par}, true
 	case bkVar:
-		b := []mt.Stmt{mt.T(tag + "="), mt.P(mt.V("v")), mt.T(";")}
+		// (tv<level> is assigned at the top level of the template that defines this block, outside every block)
+		b := []mt.Stmt{mt.T(tag + "="), mt.P(mt.V("v")), mt.T(";"), mt.P(mt.V(fmt.Sprintf("tv%d", level))), mt.P(mt.MCall{Name: fmt.Sprintf("tm%d", level), Args: []mt.Expr{mt.I(int64(level))}})}
 		if inRow {
 			b = append(b, mt.P(mt.V("i")))
 		}
@@ -123,7 +124,8 @@ func (p *c10) build(levels int, kinds [][]int, layout int, nameForm int, flag bo
 				ext = mt.Cond{C: mt.V("t_yes"), A: mt.S(fmt.Sprintf("t%d", lv-1)), B: mt.S("nope")}
 			}
 		}
-		body := []mt.Stmt{mt.Extends{E: ext}, mt.T("\nignored text\n")}
+		body := []mt.Stmt{mt.Extends{E: ext}, mt.T("\nignored text\n"), mt.Set{Name: fmt.Sprintf("tv%d", lv), E: mt.S(fmt.Sprintf("TV%d", lv))},
+			mt.Macro{Name: fmt.Sprintf("tm%d", lv), Params: []string{"q"}, Body: []mt.Stmt{mt.T("<TM"), mt.P(mt.V("q")), mt.T(">")}}}
 		// more things outside the blocks of an extending template, none of which may produce output
 		switch (lv*7 + layout*3 + len(kinds)) % 5 {
 		case 1:
